@@ -1,4 +1,4 @@
-CONSTANTS Mode = "post"  Orders <- OrdersT  Salts = {0, 1, 2, 3}  Alphas <- AlphasT  Rates <- RatesQ  Betas = {1, 2, 4}  Stages = {1}
+CONSTANTS Mode = "post"  Orders <- OrdersT  Salts = {0, 1, 2, 3, 4, 5}  Alphas <- AlphasT  Rates <- RatesQ  Betas = {1, 2, 4}  Stages = {1}
 SPECIFICATION Spec
 INVARIANTS Emit Pre
 CHECK_DEADLOCK FALSE
